@@ -1,2 +1,360 @@
-From OFGA Require Import Codec.TupleStr.
-Example placeholder : is_valid_object [97; 58; 98] = true. Proof. reflexivity. Qed.
+(* C29: Tuple and user string encodings round-trip; the validity checks accept exactly the
+   documented grammar: one type prefix, at most one relation, and no spaces or control characters.
+
+   Statements only; the proofs are in Codec/TupleStrProofs.v, the model in Codec/TupleStr.v.
+   [clean bad s] (TupleStrProofs.v) = no rune of the Go rune sequence of s is a control character
+   (unicode.IsControl) or a member of bad.
+   Bytes: '#'=c_hash=35  ':'=c_colon=58  '@'=c_at=64  ' '=c_space=32  '*'=c_star=42. *)
+From OFGA Require Import Codec.TupleStr Codec.TupleStrProofs.
+Open Scope N_scope.
+
+(* ================================================================== *)
+(* A. The Go rune decoder                                               *)
+(* ================================================================== *)
+
+Theorem runes_app_ascii : forall (a : bytes) (c : N) (b : bytes),
+  c < 128 -> runes (a ++ c :: b) = runes a ++ c :: runes b.
+Proof. exact TupleStrProofs.runes_app_ascii. Qed.
+Print Assumptions runes_app_ascii.
+(* "é" ':' "é" with a truncated sequence before the ':' *)
+Example runes_app_ascii_ex :
+  58 < 128 /\ runes ([195; 169; 226; 130] ++ 58 :: [195; 169]) = [233; 65533; 65533; 58; 233].
+Proof. split; reflexivity. Qed.
+
+Theorem in_runes_ascii : forall (c : N) (s : bytes), c < 128 -> (In c s <-> In c (runes s)).
+Proof. exact TupleStrProofs.in_runes_ascii. Qed.
+Print Assumptions in_runes_ascii.
+Example in_runes_ascii_ex : 58 < 128 /\ In 58 [195; 58; 169] /\ In 58 (runes [195; 58; 169]).
+Proof. vm_compute. repeat split; auto. Qed.
+
+Theorem runes_nil_iff : forall s : bytes, runes s = [] <-> s = [].
+Proof. exact TupleStrProofs.runes_nil_iff. Qed.
+Print Assumptions runes_nil_iff.
+Example runes_nil_iff_ex : runes [255] = [65533] /\ runes [] = [].
+Proof. split; reflexivity. Qed.
+
+(* ================================================================== *)
+(* B. The validity checks accept exactly the documented grammar         *)
+(* ================================================================== *)
+
+Theorem is_valid_relation_iff : forall s : bytes,
+  is_valid_relation s = true <->
+  s <> [] /\ clean [c_hash; c_colon; c_at; c_space] s = true.
+Proof. exact TupleStrProofs.is_valid_relation_iff. Qed.
+Print Assumptions is_valid_relation_iff.
+(* "viewer" is accepted; "view er", "a@b", "", "a<U+0085>" are rejected *)
+Example is_valid_relation_ex :
+  is_valid_relation [118; 105; 101; 119; 101; 114] = true /\
+  is_valid_relation [118; 105; 101; 119; 32; 101; 114] = false /\
+  is_valid_relation [97; 64; 98] = false /\
+  is_valid_relation [] = false /\
+  is_valid_relation [97; 194; 133] = false.
+Proof. repeat split; reflexivity. Qed.
+
+Theorem is_valid_userid_iff : forall s : bytes,
+  is_valid_userid s = true <-> s <> [] /\ clean [c_hash; c_colon; c_space] s = true.
+Proof. exact TupleStrProofs.is_valid_userid_iff. Qed.
+Print Assumptions is_valid_userid_iff.
+(* "anne" and "a@b" are accepted; "a:b" is rejected.  An invalid UTF-8 byte decodes to U+FFFD,
+   which is not a control character, so "\xff" is accepted too. *)
+Example is_valid_userid_ex :
+  is_valid_userid [97; 110; 110; 101] = true /\ is_valid_userid [97; 64; 98] = true /\
+  is_valid_userid [97; 58; 98] = false /\ is_valid_userid [255] = true.
+Proof. repeat split; reflexivity. Qed.
+
+Theorem is_valid_object_iff : forall s : bytes,
+  is_valid_object s = true <->
+  exists t id, s = t ++ c_colon :: id /\ t <> [] /\ id <> [] /\
+               clean [c_hash; c_colon; c_space] t = true /\
+               clean [c_hash; c_colon; c_space] id = true.
+Proof. exact TupleStrProofs.is_valid_object_iff. Qed.
+Print Assumptions is_valid_object_iff.
+(* "doc:1" and "café:1" accepted; ":1", "doc:", "a:b:c", "doc" rejected *)
+Example is_valid_object_ex :
+  is_valid_object [100; 111; 99; 58; 49] = true /\
+  is_valid_object [99; 97; 102; 195; 169; 58; 49] = true /\
+  is_valid_object [58; 49] = false /\ is_valid_object [100; 111; 99; 58] = false /\
+  is_valid_object [97; 58; 98; 58; 99] = false /\ is_valid_object [100; 111; 99] = false.
+Proof. repeat split; reflexivity. Qed.
+
+Theorem is_valid_userset_iff : forall s : bytes,
+  is_valid_userset s = true <->
+  exists t id r, s = t ++ c_colon :: id ++ c_hash :: r /\ t <> [] /\ id <> [] /\ r <> [] /\
+                 clean [c_hash; c_colon; c_space] t = true /\
+                 clean [c_hash; c_colon; c_space; c_star] id = true /\
+                 clean [c_hash; c_colon; c_space; c_star] r = true.
+Proof. exact TupleStrProofs.is_valid_userset_iff. Qed.
+Print Assumptions is_valid_userset_iff.
+(* "group:eng#member" accepted; "group:*#member", "group:eng#", "group:eng" rejected *)
+Example is_valid_userset_ex :
+  is_valid_userset [103; 114; 111; 117; 112; 58; 101; 110; 103; 35; 109; 101; 109; 98; 101; 114] = true /\
+  is_valid_userset [103; 114; 111; 117; 112; 58; 42; 35; 109; 101; 109; 98; 101; 114] = false /\
+  is_valid_userset [103; 114; 111; 117; 112; 58; 101; 110; 103; 35] = false /\
+  is_valid_userset [103; 114; 111; 117; 112; 58; 101; 110; 103] = false.
+Proof. repeat split; reflexivity. Qed.
+(* the code tolerates '*' in the type part of a userset: "gr*up:1#member" *)
+Example is_valid_userset_star_in_type :
+  is_valid_userset [103; 114; 42; 117; 112; 58; 49; 35; 109; 101; 109; 98; 101; 114] = true.
+Proof. reflexivity. Qed.
+
+Theorem is_valid_user_iff : forall s : bytes,
+  is_valid_user s = true <->
+  s = [c_star] \/ is_valid_userid s = true \/ is_valid_object s = true \/
+  is_valid_userset s = true.
+Proof. exact TupleStrProofs.is_valid_user_iff. Qed.
+Print Assumptions is_valid_user_iff.
+(* "*", "anne", "user:anne", "user:*", "group:eng#member" *)
+Example is_valid_user_ex :
+  is_valid_user [42] = true /\ is_valid_user [97; 110; 110; 101] = true /\
+  is_valid_user [117; 115; 101; 114; 58; 97; 110; 110; 101] = true /\
+  is_valid_user [117; 115; 101; 114; 58; 42] = true /\
+  is_valid_user [103; 114; 111; 117; 112; 58; 101; 110; 103; 35; 109; 101; 109; 98; 101; 114] = true /\
+  is_valid_user [97; 32; 98] = false.
+Proof. repeat split; reflexivity. Qed.
+
+(* "no control characters, none of bad" read on the bytes of the string: no byte of bad, no ASCII
+   control byte, and no adjacent pair 0xC2 0x80..0x9F (the encodings of U+0080..U+009F). *)
+Theorem clean_bytes : forall (bad : list N) (s : bytes),
+  forallb (fun c => c <? 128) bad = true ->
+  clean bad s =
+  forallb (fun c => negb (mem c bad)) s && negb (existsb ascii_ctl s) && negb (c1pair s).
+Proof. exact TupleStrProofs.clean_bytes. Qed.
+Print Assumptions clean_bytes.
+
+Theorem clean_bytes_iff : forall (bad : list N) (s : bytes),
+  (forall c, In c bad -> c < 128) ->
+  (clean bad s = true <->
+   (forall c, In c s -> ~ In c bad) /\
+   (forall c, In c s -> 32 <= c /\ c <> 127) /\
+   (forall a b rest, s = a ++ 194 :: b :: rest -> b < 128 \/ 159 < b)).
+Proof. exact TupleStrProofs.clean_bytes_iff. Qed.
+Print Assumptions clean_bytes_iff.
+Example clean_bytes_iff_ex : forall c, In c [c_hash; c_colon; c_space] -> c < 128.
+Proof. intros c [<-|[<-|[<-|[]]]]; reflexivity. Qed.
+(* "café" is clean, "a<U+0085>" and "a\x7f" are not; 0xC2 0xA0 (U+00A0) is fine *)
+Example clean_bytes_ex :
+  forallb (fun c => c <? 128) [c_hash; c_colon; c_space] = true /\
+  clean [c_hash; c_colon; c_space] [99; 97; 102; 195; 169] = true /\
+  clean [c_hash; c_colon; c_space] [97; 194; 133] = false /\
+  clean [c_hash; c_colon; c_space] [97; 127] = false /\
+  clean [c_hash; c_colon; c_space] [194; 160] = true.
+Proof. repeat split; reflexivity. Qed.
+
+(* ================================================================== *)
+(* C. Round trips                                                       *)
+(* ================================================================== *)
+
+Theorem parse_render_roundtrip : forall o r u : bytes,
+  is_valid_object o = true -> is_valid_relation r = true -> is_valid_user u = true ->
+  parse_tuple_string (tuple_key_to_string o r u) = inl (o, r, u).
+Proof. exact TupleStrProofs.parse_render_roundtrip. Qed.
+Print Assumptions parse_render_roundtrip.
+(* "doc:1", "viewer", "group:eng#member" *)
+Example parse_render_roundtrip_ex :
+  is_valid_object [100; 111; 99; 58; 49] = true /\
+  is_valid_relation [118; 105; 101; 119; 101; 114] = true /\
+  is_valid_user [103; 114; 111; 117; 112; 58; 101; 110; 103; 35; 109; 101; 109; 98; 101; 114] = true.
+Proof. repeat split; reflexivity. Qed.
+
+Theorem render_parse_roundtrip : forall s o r u : bytes,
+  parse_tuple_string s = inl (o, r, u) ->
+  tuple_key_to_string o r u = s /\
+  is_valid_object o = true /\ is_valid_relation r = true /\ is_valid_user u = true.
+Proof. exact TupleStrProofs.render_parse_roundtrip. Qed.
+Print Assumptions render_parse_roundtrip.
+(* "doc:1#viewer@group:eng#member" *)
+Example render_parse_roundtrip_ex :
+  parse_tuple_string [100; 111; 99; 58; 49; 35; 118; 105; 101; 119; 101; 114; 64; 103; 114; 111;
+                      117; 112; 58; 101; 110; 103; 35; 109; 101; 109; 98; 101; 114]
+  = inl ([100; 111; 99; 58; 49], [118; 105; 101; 119; 101; 114],
+         [103; 114; 111; 117; 112; 58; 101; 110; 103; 35; 109; 101; 109; 98; 101; 114]).
+Proof. reflexivity. Qed.
+
+Theorem split_build_object : forall t id : bytes,
+  mem c_colon t = false -> split_object (build_object t id) = (t, id).
+Proof. exact TupleStrProofs.split_build_object. Qed.
+Print Assumptions split_build_object.
+Example split_build_object_ex :
+  mem c_colon [100; 111; 99] = false /\
+  split_object (build_object [100; 111; 99] [49; 58; 50]) = ([100; 111; 99], [49; 58; 50]).
+Proof. split; reflexivity. Qed.
+
+Theorem split_object_relation_build : forall o r : bytes,
+  mem c_hash r = false -> split_object_relation (to_object_relation_string o r) = (o, r).
+Proof. exact TupleStrProofs.split_object_relation_build. Qed.
+Print Assumptions split_object_relation_build.
+Example split_object_relation_build_ex :
+  mem c_hash [109; 101; 109; 98; 101; 114] = false /\
+  split_object_relation (to_object_relation_string [97; 35; 98] [109; 101; 109; 98; 101; 114])
+  = ([97; 35; 98], [109; 101; 109; 98; 101; 114]).
+Proof. split; reflexivity. Qed.
+
+(* --- user proto <-> string --- *)
+
+Theorem user_proto_object_roundtrip : forall t id : bytes,
+  mem c_colon t = false -> mem c_hash t = false -> mem c_hash id = false -> id <> [c_star] ->
+  string_to_user_proto (user_proto_to_string (UObject t id)) = UObject t id.
+Proof. exact TupleStrProofs.user_proto_object_roundtrip. Qed.
+Print Assumptions user_proto_object_roundtrip.
+(* "user", "anne" *)
+Example user_proto_object_roundtrip_ex :
+  mem c_colon [117; 115; 101; 114] = false /\ mem c_hash [117; 115; 101; 114] = false /\
+  mem c_hash [97; 110; 110; 101] = false /\ [97; 110; 110; 101] <> [c_star].
+Proof. repeat split; try reflexivity. discriminate. Qed.
+
+(* every one of the four hypotheses is needed *)
+Theorem user_proto_object_roundtrip_refuted :
+  (exists t id, mem c_colon t = true /\ mem c_hash t = false /\ mem c_hash id = false /\
+                id <> [c_star] /\
+                string_to_user_proto (user_proto_to_string (UObject t id)) <> UObject t id) /\
+  (exists t id, mem c_colon t = false /\ mem c_hash t = true /\ mem c_hash id = false /\
+                id <> [c_star] /\
+                string_to_user_proto (user_proto_to_string (UObject t id)) <> UObject t id) /\
+  (exists t id, mem c_colon t = false /\ mem c_hash t = false /\ mem c_hash id = true /\
+                id <> [c_star] /\
+                string_to_user_proto (user_proto_to_string (UObject t id)) <> UObject t id) /\
+  (exists t id, mem c_colon t = false /\ mem c_hash t = false /\ mem c_hash id = false /\
+                id = [c_star] /\
+                string_to_user_proto (user_proto_to_string (UObject t id)) <> UObject t id).
+Proof. exact TupleStrProofs.user_proto_object_roundtrip_refuted. Qed.
+Print Assumptions user_proto_object_roundtrip_refuted.
+
+Theorem user_proto_wildcard_roundtrip : forall t : bytes,
+  mem c_colon t = false -> mem c_hash t = false ->
+  string_to_user_proto (user_proto_to_string (UWildcard t)) = UWildcard t.
+Proof. exact TupleStrProofs.user_proto_wildcard_roundtrip. Qed.
+Print Assumptions user_proto_wildcard_roundtrip.
+Example user_proto_wildcard_roundtrip_ex :
+  mem c_colon [117; 115; 101; 114] = false /\ mem c_hash [117; 115; 101; 114] = false /\
+  user_proto_to_string (UWildcard [117; 115; 101; 114]) = [117; 115; 101; 114; 58; 42].
+Proof. repeat split; reflexivity. Qed.
+
+Theorem user_proto_wildcard_roundtrip_refuted :
+  (exists t, mem c_colon t = true /\ mem c_hash t = false /\
+             string_to_user_proto (user_proto_to_string (UWildcard t)) <> UWildcard t) /\
+  (exists t, mem c_colon t = false /\ mem c_hash t = true /\
+             string_to_user_proto (user_proto_to_string (UWildcard t)) <> UWildcard t).
+Proof. exact TupleStrProofs.user_proto_wildcard_roundtrip_refuted. Qed.
+Print Assumptions user_proto_wildcard_roundtrip_refuted.
+
+Theorem user_proto_userset_roundtrip : forall t id r : bytes,
+  mem c_colon t = false -> mem c_hash r = false -> r <> [] ->
+  string_to_user_proto (user_proto_to_string (UUserset t id r)) = UUserset t id r.
+Proof. exact TupleStrProofs.user_proto_userset_roundtrip. Qed.
+Print Assumptions user_proto_userset_roundtrip.
+(* "group", "eng", "member" *)
+Example user_proto_userset_roundtrip_ex :
+  mem c_colon [103; 114; 111; 117; 112] = false /\ mem c_hash [109; 101; 109; 98; 101; 114] = false /\
+  [109; 101; 109; 98; 101; 114] <> [].
+Proof. repeat split; try reflexivity. discriminate. Qed.
+
+Theorem user_proto_userset_roundtrip_refuted :
+  (exists t id r, mem c_colon t = true /\ mem c_hash r = false /\ r <> [] /\
+     string_to_user_proto (user_proto_to_string (UUserset t id r)) <> UUserset t id r) /\
+  (exists t id r, mem c_colon t = false /\ mem c_hash r = true /\ r <> [] /\
+     string_to_user_proto (user_proto_to_string (UUserset t id r)) <> UUserset t id r) /\
+  (exists t id r, mem c_colon t = false /\ mem c_hash r = false /\ r = [] /\
+     string_to_user_proto (user_proto_to_string (UUserset t id r)) <> UUserset t id r).
+Proof. exact TupleStrProofs.user_proto_userset_roundtrip_refuted. Qed.
+Print Assumptions user_proto_userset_roundtrip_refuted.
+
+Theorem user_string_proto_roundtrip : forall s : bytes,
+  is_valid_object s = true \/ is_valid_userset s = true ->
+  user_proto_to_string (string_to_user_proto s) = s.
+Proof. exact TupleStrProofs.user_string_proto_roundtrip. Qed.
+Print Assumptions user_string_proto_roundtrip.
+(* "user:*" is a valid object and becomes UWildcard "user" *)
+Example user_string_proto_roundtrip_ex :
+  is_valid_object [117; 115; 101; 114; 58; 42] = true /\
+  string_to_user_proto [117; 115; 101; 114; 58; 42] = UWildcard [117; 115; 101; 114].
+Proof. split; reflexivity. Qed.
+
+(* untyped user strings ("anne", "*") are valid users but do not survive string -> proto -> string *)
+Theorem untyped_user_string_roundtrip_refuted :
+  exists s, is_valid_user s = true /\ user_proto_to_string (string_to_user_proto s) <> s.
+Proof. exact TupleStrProofs.untyped_user_string_roundtrip_refuted. Qed.
+Print Assumptions untyped_user_string_roundtrip_refuted.
+
+Theorem wildcard_user_string_roundtrip_refuted :
+  is_valid_user [c_star] = true /\
+  user_proto_to_string (string_to_user_proto [c_star]) <> [c_star].
+Proof. exact TupleStrProofs.wildcard_user_string_roundtrip_refuted. Qed.
+Print Assumptions wildcard_user_string_roundtrip_refuted.
+
+(* --- user parts --- *)
+
+Theorem from_to_user_parts : forall s : bytes,
+  is_valid_user s = true ->
+  (let '(t, id, r) := to_user_parts s in from_user_parts t id r) = s.
+Proof. exact TupleStrProofs.from_to_user_parts. Qed.
+Print Assumptions from_to_user_parts.
+(* "group:eng#member" *)
+Example from_to_user_parts_ex :
+  is_valid_user [103; 114; 111; 117; 112; 58; 101; 110; 103; 35; 109; 101; 109; 98; 101; 114] = true /\
+  to_user_parts [103; 114; 111; 117; 112; 58; 101; 110; 103; 35; 109; 101; 109; 98; 101; 114]
+  = ([103; 114; 111; 117; 112], [101; 110; 103], [109; 101; 109; 98; 101; 114]).
+Proof. split; reflexivity. Qed.
+
+(* Adjusted side conditions: '#' in the type or the id only hurts when the relation is empty. *)
+Theorem to_from_user_parts : forall t id r : bytes,
+  mem c_colon t = false -> mem c_hash r = false ->
+  (r = [] -> mem c_hash t = false /\ mem c_hash id = false) ->
+  (t = [] -> mem c_colon id = false) ->
+  to_user_parts (from_user_parts t id r) = (t, id, r).
+Proof. exact TupleStrProofs.to_from_user_parts_exact. Qed.
+Print Assumptions to_from_user_parts.
+(* "group", "eng", "member"; and "", "anne", "" *)
+Example to_from_user_parts_ex :
+  (mem c_colon [103; 114; 111; 117; 112] = false /\ mem c_hash [109; 101; 109; 98; 101; 114] = false /\
+   ([109; 101; 109; 98; 101; 114] = [] ->
+    mem c_hash [103; 114; 111; 117; 112] = false /\ mem c_hash [101; 110; 103] = false) /\
+   ([103; 114; 111; 117; 112] = [] -> mem c_colon [101; 110; 103] = false)) /\
+  to_user_parts (from_user_parts [] [97; 110; 110; 101] []) = ([], [97; 110; 110; 101], []).
+Proof. repeat split; reflexivity. Qed.
+
+(* the originally guessed (stronger) hypotheses *)
+Theorem to_from_user_parts_simple : forall t id r : bytes,
+  mem c_colon t = false -> mem c_hash t = false -> mem c_hash id = false ->
+  mem c_hash r = false -> (t = [] -> mem c_colon id = false) ->
+  to_user_parts (from_user_parts t id r) = (t, id, r).
+Proof. exact TupleStrProofs.to_from_user_parts_simple. Qed.
+Print Assumptions to_from_user_parts_simple.
+(* "user", "anne", "" *)
+Example to_from_user_parts_simple_ex :
+  mem c_colon [117; 115; 101; 114] = false /\ mem c_hash [117; 115; 101; 114] = false /\
+  mem c_hash [97; 110; 110; 101] = false /\ mem c_hash [] = false /\
+  from_user_parts [117; 115; 101; 114] [97; 110; 110; 101] [] = [117; 115; 101; 114; 58; 97; 110; 110; 101].
+Proof. repeat split; reflexivity. Qed.
+
+(* each side condition of to_from_user_parts is needed *)
+Theorem to_from_user_parts_type_colon_refuted :
+  exists t id r, mem c_colon t = true /\ mem c_hash t = false /\ mem c_hash id = false /\
+                 mem c_hash r = false /\ mem c_colon id = false /\
+                 to_user_parts (from_user_parts t id r) <> (t, id, r).
+Proof. exact TupleStrProofs.to_from_user_parts_type_colon_refuted. Qed.
+Print Assumptions to_from_user_parts_type_colon_refuted.
+
+Theorem to_from_user_parts_relation_hash_refuted :
+  exists t id r, mem c_hash r = true /\ mem c_colon t = false /\ mem c_hash t = false /\
+                 mem c_hash id = false /\ mem c_colon id = false /\
+                 to_user_parts (from_user_parts t id r) <> (t, id, r).
+Proof. exact TupleStrProofs.to_from_user_parts_relation_hash_refuted. Qed.
+Print Assumptions to_from_user_parts_relation_hash_refuted.
+
+Theorem to_from_user_parts_id_hash_refuted :
+  exists t id, mem c_hash id = true /\ mem c_colon t = false /\ mem c_hash t = false /\ t <> [] /\
+               to_user_parts (from_user_parts t id []) <> (t, id, []).
+Proof. exact TupleStrProofs.to_from_user_parts_id_hash_refuted. Qed.
+Print Assumptions to_from_user_parts_id_hash_refuted.
+
+Theorem to_from_user_parts_type_hash_refuted :
+  exists t id, mem c_hash t = true /\ mem c_colon t = false /\ mem c_hash id = false /\
+               to_user_parts (from_user_parts t id []) <> (t, id, []).
+Proof. exact TupleStrProofs.to_from_user_parts_type_hash_refuted. Qed.
+Print Assumptions to_from_user_parts_type_hash_refuted.
+
+Theorem to_from_user_parts_untyped_colon_refuted :
+  exists id, mem c_colon id = true /\ mem c_hash id = false /\
+             to_user_parts (from_user_parts [] id []) <> ([], id, []).
+Proof. exact TupleStrProofs.to_from_user_parts_untyped_colon_refuted. Qed.
+Print Assumptions to_from_user_parts_untyped_colon_refuted.
